@@ -98,8 +98,36 @@ fn tag_bytes(n: u64, w: u8, body: &[u8]) -> Option<Vec<u8>> {
     Some(out)
 }
 
+/// Split a leading tag head off `b`: (tag number, head width, rest).
+fn peel_tag(b: &[u8]) -> Option<(u64, u8, &[u8])> {
+    let first = *b.first()?;
+    if first >> 5 != 6 {
+        return None;
+    }
+    let w: u8 = match first & 31 {
+        0..=23 => 0,
+        24 => 1,
+        25 => 2,
+        26 => 4,
+        27 => 8,
+        _ => return None,
+    };
+    let arg = b.get(1..1 + w as usize)?;
+    let n = if w == 0 { (first & 31) as u64 } else { arg.iter().fold(0u64, |a, x| (a << 8) | *x as u64) };
+    Some((n, w, &b[1 + w as usize..]))
+}
+
 /// All claims of the statement for one (type, outer tag layers, body).
 fn check(t: &Ty, tags: &[(u64, u8)], body: &[u8], ctx: &mut Ctx) -> CaseResult {
+    // a generated body may itself start with tag heads (the generators' "tagged where untagged is
+    // expected" fault): they belong to the tag layers, not to the body
+    let mut tags = tags.to_vec();
+    let mut body = body;
+    while let Some((n, w, rest)) = peel_tag(body) {
+        tags.push((n, w));
+        body = rest;
+    }
+    let tags = &tags[..];
     // x = tags applied outermost-first to body
     let mut x = body.to_vec();
     for (n, w) in tags.iter().rev() {
